@@ -4,7 +4,7 @@ Computations only need `message_sender(src, dst, msg, prio, on_error)` and
 `periodic_action_handler` -- what Agent.add_computation injects.  SimNet injects its own:
 
 * one FIFO queue per ordered pair (src, dst); nothing is delivered synchronously;
-* messages re-posted by a computation to itself with a priority below 20 (what
+* messages re-posted by a computation to itself with priority 19 (what
   MessagePassingComputation.start()/pause(False) do with the messages they buffered) go to a
   per-destination priority lane that is drained before any ordinary message to that destination,
   exactly like the agent's PriorityQueue does;
@@ -82,8 +82,10 @@ class SimNet:
     # message_sender protocol
     def post(self, src, dst, msg, prio=None, on_error=None):
         self.seq += 1
-        if prio is not None and prio < 20 and dst in self.comps and self._inside == dst:
-            # a computation re-injecting a buffered message to itself
+        if prio == 19 and dst in self.comps and self._inside == dst:
+            # a computation re-injecting a buffered message to itself (start() / pause(False) use priority 19;
+            # anything else posted from inside a handler - e.g. a discovery message of another computation of the
+            # same agent - queues up behind what has already arrived, like every other message)
             self.lane.setdefault(dst, deque()).append((self.seq, src, msg))
             return
         if dst not in self.comps:
